@@ -44,39 +44,41 @@ func pollTimeouts[Type any, Status StatusType](
 		}
 
 		for _, expiredTimeout := range expiredTimeouts {
-			// The timeout belongs to one specific run: re-read that run and not the latest run of the foreign ID, which
-			// may be a newer run waiting at the same status with a timer of its own.
-			r, err := w.recordStore.Lookup(ctx, expiredTimeout.RunID)
-			if err != nil {
-				return err
-			}
-
-			if r.Status != int(status) || r.RunState.Finished() {
-				// Object has been updated already. Mark timeout as cancelled as it is no longer valid.
-				err = w.timeoutStore.Cancel(ctx, expiredTimeout.ID)
+			// Every configured timeout of this status is given the expired timer. Each of them must act on the run as it
+			// is now: an earlier timeout function may already have moved, paused or cancelled the run.
+			for _, config := range timeouts.transitions {
+				// The timeout belongs to one specific run: re-read that run and not the latest run of the foreign ID, which
+				// may be a newer run waiting at the same status with a timer of its own.
+				r, err := w.recordStore.Lookup(ctx, expiredTimeout.RunID)
 				if err != nil {
 					return err
 				}
 
-				// Continue to next expired timeout
-				continue
-			}
+				if r.Status != int(status) || r.RunState.Finished() {
+					// Object has been updated already. Mark timeout as cancelled as it is no longer valid.
+					err = w.timeoutStore.Cancel(ctx, expiredTimeout.ID)
+					if err != nil {
+						return err
+					}
 
-			if r.RunState.Stopped() {
-				w.logger.Debug(ctx, "Skipping processing of timeout of stopped workflow record", map[string]string{
-					"workflow":       r.WorkflowName,
-					"run_id":         r.RunID,
-					"foreign_id":     r.ForeignID,
-					"process_name":   processName,
-					"current_status": strconv.FormatInt(int64(r.Status), 10),
-					"run_state":      r.RunState.String(),
-				})
+					// Continue to next expired timeout
+					break
+				}
 
-				// Continue to next expired timeout
-				continue
-			}
+				if r.RunState.Stopped() {
+					w.logger.Debug(ctx, "Skipping processing of timeout of stopped workflow record", map[string]string{
+						"workflow":       r.WorkflowName,
+						"run_id":         r.RunID,
+						"foreign_id":     r.ForeignID,
+						"process_name":   processName,
+						"current_status": strconv.FormatInt(int64(r.Status), 10),
+						"run_state":      r.RunState.String(),
+					})
 
-			for _, config := range timeouts.transitions {
+					// Continue to next expired timeout
+					break
+				}
+
 				t0 := w.clock.Now()
 				err = processTimeout(
 					ctx,
